@@ -135,7 +135,17 @@ impl Lexer {
                     break;
                 }
                 LexingMode::RawString => {
-                    let is_date = c == '-' && looks_like_date(&s);
+                    // `2024-05-06` is a date, `2030-2024`, `2024-size` and `20000-1` are subtractions:
+                    // a date goes on with a month or a day, i.e. one or two digits
+                    let is_date = c == '-'
+                        && looks_like_date(&s)
+                        && (1..=2).contains(
+                            &input_part
+                                .chars()
+                                .skip(self.char_index as usize + 1)
+                                .take_while(|c| c.is_ascii_digit())
+                                .count(),
+                        );
                     if !is_date {
                         if self.is_arithmetic_op_char(c) {
                             let maybe_expr = looks_like_expression(&s);
@@ -293,7 +303,7 @@ fn is_paren_char(c: char) -> bool {
 }
 
 static DATE_ALIKE_REGEX: LazyLock<Regex> = LazyLock::new(|| {
-    Regex::new("(\\d{4})-?(\\d{2})?").unwrap()
+    Regex::new("^([0-9]{4})(?:-([0-9]{1,2}))?$").unwrap()
 });
 
 fn looks_like_expression(s: &str) -> bool {
@@ -307,7 +317,7 @@ fn looks_like_date(s: &str) -> bool {
         Some(cap) => {
             let year = cap[1].parse::<i32>();
             let year_ok = match year {
-                Ok(year) => (1970..3000).contains(&year), // optimistic assumption
+                Ok(year) => year > 0,
                 _ => false,
             };
 
